@@ -5,7 +5,7 @@
 
     The schedule is an explicit argument: [run] takes a list of thread ids; a step of a thread
     that is blocked or finished leaves the state unchanged. *)
-From Wharf Require Import Base.Prelude FS.Tree FS.Ops Heal.Validator.
+From Wharf Require Import FS.Light FS.Tree FS.Ops Heal.Validator.
 
 Inductive hphase :=
 | HRun                       (* for wound := range wounds *)
